@@ -58,8 +58,67 @@ pub fn gen_leaf_dt(r: &mut Rng) -> Value {
         24 => json!({"t": "Duration", "unit": *r.pick(&UNITS)}),
         25 => json!({"t": "Timestamp", "unit": *r.pick(&UNITS), "tz": if r.bool() { json!("UTC") } else { Value::Null }}),
         26 => json!({"t": "Decimal128", "p": 1 + r.below(38), "s": r.range(-3, 6)}),
-        27 | 28 => json!({"t": "Dictionary", "key": {"t": *r.pick(&INT_TYPES)}, "value": {"t": *r.pick(&["Utf8", "LargeUtf8"])}}),
+        27 | 28 => json!({"t": "Dictionary", "key": {"t": *r.pick(&INT_TYPES)}, "value": gen_dict_value_dt(r)}),
         _ => json!({"t": "Int32"}),
+    }
+}
+
+/// the value type of a dictionary: `build_builder` accepts ANY type (the value builder receives the distinct strings
+/// through `serialize_str`): mostly the string types, a third of the time one of the others
+pub fn gen_dict_value_dt(r: &mut Rng) -> Value {
+    if !r.chance(1, 3) {
+        return json!({"t": *r.pick(&["Utf8", "LargeUtf8"])});
+    }
+    let all = dict_value_dts();
+    all[r.usize(all.len())].clone()
+}
+
+/// value types of a dictionary other than Utf8 / LargeUtf8: every kind of value builder once (string view, the parsed
+/// kinds, builders that refuse `serialize_str`)
+pub fn dict_value_dts() -> Vec<Value> {
+    vec![
+        json!({"t": "Utf8View"}),
+        json!({"t": "Date32"}),
+        json!({"t": "Date64"}),
+        json!({"t": "Time32", "unit": "Second"}),
+        json!({"t": "Time64", "unit": "Microsecond"}),
+        json!({"t": "Timestamp", "unit": "Millisecond", "tz": "UTC"}),
+        json!({"t": "Timestamp", "unit": "Second", "tz": Value::Null}),
+        json!({"t": "Duration", "unit": "Millisecond"}),
+        json!({"t": "Decimal128", "p": 10, "s": 2}),
+        json!({"t": "Binary"}),
+        json!({"t": "LargeBinary"}),
+        json!({"t": "BinaryView"}),
+        json!({"t": "FixedSizeBinary", "n": 1}),
+        json!({"t": "Int32"}),
+        json!({"t": "Boolean"}),
+        json!({"t": "Float64"}),
+        json!({"t": "Null"}),
+    ]
+}
+
+/// a scalar for a dictionary column whose value type is not Utf8 / LargeUtf8: drawn from a small pool of strings the
+/// value type parses (so that entries repeat and the index is hit), sometimes a scalar forwarded through `to_string`
+fn gen_dict_scalar(r: &mut Rng, vdt: &Value) -> Value {
+    let t = vdt["t"].as_str().unwrap();
+    let pool: &[&str] = match t {
+        "Date32" | "Date64" => &["2020-01-01", "2020-01-02", "1969-12-31", "2020-1-1", ""],
+        "Time32" | "Time64" => &["00:00:00", "12:34:56", "23:59:59.5", "12:34:56.000", ""],
+        "Timestamp" => {
+            if vdt["tz"].is_null() {
+                &["2020-01-01T00:00:00", "1999-12-31T23:59:59.250", "2020-01-01T00:00:00Z", ""]
+            } else {
+                &["2020-01-01T00:00:00Z", "1999-12-31T23:59:59.250Z", "2020-01-01T00:00:00", ""]
+            }
+        }
+        "Duration" => &["PT5S", "P1DT2H", "PT0S", "-PT0.5S", ""],
+        "Decimal128" => &["1.0", "1.00", "5", "-2.5", "", "0"],
+        _ => &["x", "y", "", "zz", "日本", "a"],
+    };
+    match r.below(8) {
+        0 => sval::int("i32", r.below(10) as i128),
+        1 => sval::unit_variant("E", r.below(3) as u32, *r.pick(&["A", "5", ""])),
+        _ => sval::string(*r.pick(pool)),
     }
 }
 
@@ -342,6 +401,10 @@ pub fn all_leaf_dts() -> Vec<Value> {
     v.push(json!({"t": "Decimal128", "p": 10, "s": 2}));
     v.push(json!({"t": "Dictionary", "key": {"t": "Int8"}, "value": {"t": "Utf8"}}));
     v.push(json!({"t": "Dictionary", "key": {"t": "UInt32"}, "value": {"t": "LargeUtf8"}}));
+    // dictionaries with every other kind of value builder (key types rotate)
+    for (i, vdt) in dict_value_dts().into_iter().enumerate() {
+        v.push(json!({"t": "Dictionary", "key": {"t": INT_TYPES[i % INT_TYPES.len()]}, "value": vdt}));
+    }
     v
 }
 
@@ -594,6 +657,7 @@ fn gen_inner(r: &mut Rng, dt: &Value, cfg: &ValCfg) -> Value {
             3 => sval::f64v(*r.pick(&[0.0, 1.5, -2.25, 100.0, 0.001, 12345.678, -0.0])),
             _ => sval::f32v(*r.pick(&[0.0f32, 1.5, -2.25, 7.0])),
         },
+        "Dictionary" if !matches!(dt["value"]["t"].as_str(), Some("Utf8") | Some("LargeUtf8")) => gen_dict_scalar(r, &dt["value"]),
         "Dictionary" => match r.below(5) {
             0 => sval::unit_variant("E", r.below(3) as u32, *r.pick(&["A", "Bee", ""])),
             _ => sval::string(*r.pick(&["x", "y", "", "zz", "日本", "a", "b", "c", "d"])),
